@@ -5,6 +5,7 @@ package main
 
 import (
 	"go/token"
+	"go/types"
 
 	"golang.org/x/tools/go/ssa"
 )
@@ -48,21 +49,95 @@ func (e *Exec) nextOp(fr *Frame, st State, in *ssa.Next) []Outcome {
 	e.fail("next not supported yet")
 	return nil
 }
+type civil struct{ y, m, d *Term }
+
 func (e *Exec) externalEnv(fr *Frame, st State, fn *ssa.Function, args []Val, pos token.Pos) ([]Outcome, bool) {
+	c := e.c
+	switch fn.String() {
+	case "time.Date":
+		// assumed contract (calendar normalisation): a valid civil date is returned unchanged,
+		// an invalid one is normalised to a different (year, month, day)
+		for _, a := range args[3:7] {
+			if !a[0].IsConst() || a[0].C != 0 {
+				e.fail("time.Date with a non-zero time of day has no assumed contract")
+			}
+		}
+		y, m, d := args[0][0], args[1][0], args[2][0]
+		k := func(v uint64) *Term { return c.Const(64, v) }
+		leap := c.And(c.Eq(c.Srem(y, k(4)), k(0)), c.Or(c.Ne(c.Srem(y, k(100)), k(0)), c.Eq(c.Srem(y, k(400)), k(0))))
+		dim := c.Ite(c.Eq(m, k(2)), c.Ite(leap, k(29), k(28)),
+			c.Ite(c.Or(c.Eq(m, k(4)), c.Eq(m, k(6)), c.Eq(m, k(9)), c.Eq(m, k(11))), k(30), k(31)))
+		valid := c.And(c.Sle(k(1), m), c.Sle(m, k(12)), c.Sle(k(1), d), c.Sle(d, dim), c.Sle(k(1), y), c.Sle(y, k(9999)))
+		Y, M, D := c.Fresh("date.y", BV(64)), c.Fresh("date.m", BV(64)), c.Fresh("date.d", BV(64))
+		same := c.And(c.Eq(Y, y), c.Eq(M, m), c.Eq(D, d))
+		st = st.assume(c.Eq(valid, same))
+		st = st.assume(c.And(c.Sle(k(1), M), c.Sle(M, k(12)), c.Sle(k(1), D), c.Sle(D, k(31))))
+		t := e.freshVal(fn.Signature.Results().At(0).Type(), "time")
+		e.times[t[0]] = civil{Y, M, D}
+		e.assumed["assumed contract: time.Date normalises exactly the invalid civil dates (conformance: exhaustive test over day/month/year)"] = true
+		return []Outcome{{st: st, ret: t}}, true
+	case "(time.Time).Year", "(time.Time).Month", "(time.Time).Day":
+		cv, ok := e.times[args[0][0]]
+		if !ok {
+			e.fail("time.Time value of unknown origin")
+		}
+		r := map[string]*Term{"Year": cv.y, "Month": cv.m, "Day": cv.d}[fn.Name()]
+		return []Outcome{{st: st, ret: Val{r}}}, true
+	}
 	return nil, false
 }
+
 func (e *Exec) externalInvokeEnv(fr *Frame, st State, cc *ssa.CallCommon, recv Val, args []Val, pos token.Pos) ([]Outcome, bool) {
+	switch cc.Method.Name() {
+	case "Error", "String":
+		if cc.Method.Type().(*types.Signature).Params().Len() == 0 {
+			s, v := e.freshString(st, "msg")
+			e.assumed["error.Error()/Stringer.String() of foreign values return some string"] = true
+			return []Outcome{{st: s, ret: v}}, true
+		}
+	}
 	return nil, false
 }
 func (e *Exec) goEnv(fr *Frame, st State, g *ssa.Go, fnv Val, args []Val) []Outcome {
 	e.fail("go statement not supported yet")
 	return nil
 }
+// []rune(s): assumed contract — a fresh slice of at most len(s) runes; for ASCII-only
+// strings exactly one rune per byte (stated as a quantified fact).
 func (e *Exec) stringToRunes(fr *Frame, st *State, x Val) Val {
-	e.fail("[]rune(string) not supported yet")
-	return nil
+	c := e.c
+	n := c.Fresh("nrunes", BV(64))
+	s2 := st.assume(c.Ule(n, x[1]))
+	s2, a := e.alloc(s2, n, "runes")
+	arr := c.Fresh("runes.data", Sort{KArr, 32})
+	s2.h[2] = s2.h[2].push(HeapLayer{kind: lHavoc, addr: a, n: n, arr: arr})
+	k := c.Bound("k", BV(64))
+	ascii := c.Forall(k, c.Imp(c.Ult(k, x[1]), c.Ult(e.read(st.h[0], c.Add(x[0], k)), c.Const(8, 0x80))))
+	k2 := c.Bound("k", BV(64))
+	same := c.Forall(k2, c.Imp(c.Ult(k2, x[1]), c.Eq(c.Select(arr, c.Add(a, k2)), c.Zext(e.read(st.h[0], c.Add(x[0], k2)), 32))))
+	s2 = s2.assume(c.Imp(ascii, c.And(c.Eq(n, x[1]), same)))
+	k3 := c.Bound("k", BV(64))
+	s2 = s2.assume(c.Forall(k3, c.Imp(c.Ult(k3, n), c.Ule(c.Select(arr, c.Add(a, k3)), c.Const(32, 0x10FFFF)))))
+	*st = s2
+	e.assumed["assumed contract: []rune(string) (UTF-8 decoding; exact for ASCII)"] = true
+	return Val{a, n, n}
 }
+
+// string(runes): assumed contract — a fresh string of n..4n bytes; for ASCII-only runes
+// exactly one byte per rune.
 func (e *Exec) runesToString(fr *Frame, st *State, x Val) Val {
-	e.fail("string([]rune) not supported yet")
-	return nil
+	c := e.c
+	n := c.Fresh("slen", BV(64))
+	s2 := st.assume(c.And(c.Ule(x[1], n), c.Ule(n, c.Mul(x[1], c.Const(64, 4)))))
+	s2, a := e.alloc(s2, n, "runestr")
+	arr := c.Fresh("runestr.data", Sort{KArr, 8})
+	s2.h[0] = s2.h[0].push(HeapLayer{kind: lHavoc, addr: a, n: n, arr: arr})
+	k := c.Bound("k", BV(64))
+	ascii := c.Forall(k, c.Imp(c.Ult(k, x[1]), c.Ult(e.read(st.h[2], c.Add(x[0], k)), c.Const(32, 0x80))))
+	k2 := c.Bound("k", BV(64))
+	same := c.Forall(k2, c.Imp(c.Ult(k2, x[1]), c.Eq(c.Select(arr, c.Add(a, k2)), c.Extract(7, 0, e.read(st.h[2], c.Add(x[0], k2))))))
+	s2 = s2.assume(c.Imp(ascii, c.And(c.Eq(n, x[1]), same)))
+	*st = s2
+	e.assumed["assumed contract: string([]rune) (UTF-8 encoding; exact for ASCII)"] = true
+	return Val{a, n}
 }
